@@ -72,9 +72,9 @@ def make_case(pg, insts):
     return Case(pg.prql(), pg, insts, [R.model_expr(pg, i) for i in insts], pg.ordered, pg.final_cols)
 
 
-def two_ref_cases(pg, insts, rng):
+def two_ref_cases(pg, insts, rng, force_rest=None):
     out = []
-    for label, base, q, coq, ordered, fcols in W.two_ref_pairs(pg, rng):
+    for label, base, q, coq, ordered, fcols in W.two_ref_pairs(pg, rng, force_rest=force_rest):
         exprs = []
         for inst in insts:
             tq, body = model_parts(coq, inst)
@@ -192,16 +192,49 @@ def fail_text(rec):
 
 # ------------------------------------------------------------------------------ known findings
 
-# repaired in /repo (f705aba LIMIT with a bare OFFSET on sqlite; 148aed7 never emit `--`): if one of them comes back it is a VIOLATION
-REPAIRED = {"F27-offset-without-limit", "F03-double-minus"}
+# repaired in /repo: if one of them comes back it is a VIOLATION (no classifier below returns these ids any more; the guard also
+# covers the shared classifier).  f705aba LIMIT with a bare OFFSET on sqlite; 148aed7 never emit `--`; d92afac table references
+# resolve relative to the enclosing modules; 6d6f07a append does not count a wildcard as one column; 8d54bf7 an aggregate ends
+# the sort in effect
+REPAIRED = {"F27-offset-without-limit", "F03-double-minus", "F60-module-sibling-ref", "F63-append-arity-wildcard",
+            "F65-sort-survives-aggregate"}
 
 
 def classify_side(rec):
-    """known defect that explains why THIS side is not what the reference semantics says"""
-    fid = E.classify_common(rec)
+    """known defect that explains why THIS side is not what the reference semantics says.  The narrow C06 classes that are
+    instances of a broader shared class (classify_first) are tried before the shared classifier, so that they are counted
+    under their own id."""
+    fid = classify_first(rec)
+    if fid is None:
+        fid = E.classify_common(rec)
     if fid is None:
         fid = classify_c06(rec)
     return None if fid in REPAIRED else fid
+
+
+_AGG_SELECT_ORDERED = re.compile(r"\(SELECT ((?:[^()]|\((?:[^()]|\([^()]*\))*\))*?) FROM \w+ ORDER BY ([^()]*?)\) AS table_\d+")
+
+
+def classify_first(rec):
+    """narrow classes that the shared classifier would file under a broader id"""
+    if rec["tag"] != "sql-err":
+        return None
+    prql, sql, txt = rec["prql"], rec.get("sql") or "", fail_text(rec)
+    m = re.search(r"no such column: ([A-Za-z_0-9]+)", txt)
+    if not m:
+        return None
+    col = m.group(1)
+    # F71: a relational operand (bottom of append) that ends `sort .. | aggregate ..`: the operand's sub-query keeps
+    # `ORDER BY <sort key>` behind the aggregate although the aggregate's output has no such column
+    if re.search(r"\bappend \(", prql) and re.search(r"\bsort\b", prql) and re.search(r"\baggregate\b", prql) and "UNION ALL" in sql:
+        for mm in _AGG_SELECT_ORDERED.finditer(sql):
+            if re.search(r"\b(?:COUNT|SUM|MIN|MAX|AVG)\(", mm.group(1)) and re.search(r"\b%s\b" % re.escape(col), mm.group(2)):
+                return "F71-operand-sort-survives-aggregate"
+    # F69: the final ORDER BY names the generated alias of a re-selected sort key, which the CTEs in between do not project
+    if re.fullmatch(r"_expr_\d+", col) and re.search(r"\bsort\b", prql) and re.search(r"ORDER BY [^()]*\b%s\b[^()]*$" % col, sql) \
+            and re.search(r"\b\w+ AS %s\b" % col, sql) and re.search(r"\bselect \{[^\n|{}]*\b\w+ = \w+[,}]", prql):
+        return "F69-sort-alias-not-carried"
+    return None
 
 
 _OVER_NO_ORDER = re.compile(r"OVER \((?:PARTITION BY (?:[^()]|\([^()]*\))*?)?(?:ROWS |RANGE |\))")
@@ -279,14 +312,13 @@ def classify_c06(rec):
     sql = rec.get("sql") or ""
     txt = fail_text(rec) if rec["tag"] != "rows" else ""
     has_let = bool(re.search(r"(?m)^\s*(?:let r_\d+ = \(|into r_\d+)", prql))
-    if "module-siblings" in lab and ("no such table: r_" in txt or "expected a function" in txt):
-        return "F60-module-sibling-ref"
+    if "module-siblings" in lab and rec["tag"] == "compile-err" and re.search(r"expected a function, but found `[\w.]*\bfn_\d+`", txt) \
+            and re.search(r"(?s)module m_\d+ \{.*let fn_\d+ = .*let fn_\d+ = ", prql):
+        return "F60b-module-sibling-function-ref"
     if "trfunc-pointfree" in lab and rec["tag"] == "sql-err" and re.search(r"no such column: pa_\d+", txt):
         return "F61-pointfree-transform-param"
     if "trfunc-pointfree" in lab and rec["tag"] == "panic" and "bad special function cast" in txt and "transforms.rs" in txt:
         return "F61-pointfree-transform-param"
-    if rec["tag"] == "compile-err" and "cannot append two relations with non-matching number of columns" in txt and re.search(r"\bappend t\b", prql):
-        return "F63-append-arity-wildcard"
     if rec["tag"] == "sql-err" and has_let and re.search(r"\bjoin\b", prql) and re.search(r"\bsort\b", prql):
         mo = re.search(r"(?:ambiguous column name|no such column): ([A-Za-z_0-9.]+)", txt)
         tail = sql[sql.rfind("ORDER BY"):] if "ORDER BY" in sql else ""
@@ -304,10 +336,6 @@ def classify_c06(rec):
             mq = re.search(r"no such column: ([A-Za-z_0-9]+\.[A-Za-z_0-9]+)", txt)
             if mq and re.search(r"\bsort\b", prql) and re.search(r"\bjoin\b", prql) and re.search(r"ORDER BY [^()]*%s\b" % re.escape(mq.group(1)), sql):
                 return "F38-order-by-qualified-generated-alias"
-            if re.search(r"\b(?:aggregate|group)\b", prql) and re.search(r"\bsort\b", prql) and re.search(r"ORDER BY [^()]*\b%s\b" % re.escape(col), sql):
-                return "F65-sort-survives-aggregate"
-        if m and re.fullmatch(r"_expr_\d+", m.group(1)) and re.search(r"\bsort\b", prql) and re.search(r"ORDER BY [^()]*\b%s\b[^()]*$" % m.group(1), sql):
-            return "F69-sort-alias-not-carried"
         if "UNION ALL" in sql and "same number of result columns" in txt and union_pruned(sql, lab.startswith("let2-append")):
             return "F28-append-prune"
     if rec["tag"] == "rows" and rec["verdict"] == "rows":
@@ -349,15 +377,16 @@ def judge_pair(ck, stream, case, label, rb, rr):
     replay = {"label": label, "base": rb["prql"], "rewritten": rr["prql"], "target": rb["target"], "instance": rb["instance"],
               "ordered": case.ordered, "why": why,
               "base_side": R.replay_of(rb), "rewritten_side": R.replay_of(rr)}
-    fid = None
+    fids = [None]
     if ids and all(i is not None for i in ids):
-        real = [i for i in ids if not i.startswith("oracle-")]
+        real = [i for k, i in enumerate(ids) if not i.startswith("oracle-") and i not in ids[:k]]
         if not real:
             ck.stat(stream, "skipped:" + ids[0])
             return
-        fid = real[-1]
-    ck.disagreement("%s [%s] %s: %s  ==>  %s" % (why, rb["target"], label, rb["prql"].replace("\n", " | ")[:160], rr["prql"].replace("\n", " | ")[:240]),
-                    replay, lambda _c, f=fid: f)
+        fids = real         # each side that left the meaning is explained by its own finding: both are counted
+    for fid in fids:
+        ck.disagreement("%s [%s] %s: %s  ==>  %s" % (why, rb["target"], label, rb["prql"].replace("\n", " | ")[:160], rr["prql"].replace("\n", " | ")[:240]),
+                        replay, lambda _c, f=fid: f)
 
 
 def judge_cases(ck, cases, comp, execd, model):
@@ -436,7 +465,7 @@ def beta_stream(ck, cases):
 
 # ------------------------------------------------------------------------------ main
 
-def gen_batch(ck, rng, n_base, n_two, n_dir, site_hist, n_sorted=60):
+def gen_batch(ck, rng, n_base, n_two, n_dir, site_hist, n_sorted=60, n_known=6):
     """base programs with all their rewritten variants"""
     cases = []
     g = W.RGen(rng, max_steps=6)
@@ -520,8 +549,61 @@ def gen_batch(ck, rng, n_base, n_two, n_dir, site_hist, n_sorted=60):
                     c.add("module-siblings", "+".join(q.trace), q.prql())
         for lab, q in W.sites_trfunc(rp, rng, variants=[], pointfree=True)[:2]:
             c.add("pointfree", lab, q.prql())
+        # a generated function whose body calls a second generated function (both at top level), then both moved into
+        # one module: the call inside the module stays relative
+        f1 = W.sites_func(rp, rng, per_slot=1, variants=["pos", "named-pass", "piped"])
+        rng.shuffle(f1)
+        for lab, q1 in f1[:3]:
+            for lab2, q2 in W.sites_func_nested(q1, rng):
+                c.add("func", lab + "+" + lab2, q2.prql())
+                for lab3, q3 in W.sites_module_siblings(q2, rng):
+                    c.add("module-siblings", "+".join(q3.trace), q3.prql())
         if c.variants:
             cases.append(c)
+
+    cases += directed_known(rng, n_known)
+    return cases
+
+
+def _col(n):
+    return ("col", None, n)
+
+
+def directed_known(rng, n):
+    """directed families for recorded open findings that the random streams hit too rarely (each is an ordinary base program
+    with ordinary rewrites; nothing here is exempt from the judgement)"""
+    cases = []
+    S = W.RStep
+    for _ in range(n):
+        # (1) F69: a sort key re-selected under an alias, then two more SELECT boundaries: the identity / let rewrites add one
+        k = rng.choice(["g", "b", "c"])
+        o = rng.choice(["a", "id"])
+        x1, x2, x3 = "xs1", "xs2", "xs3"
+        keep = ["id", "a"] + ([k] if rng.random() < 0.6 else [])
+        steps = [S("sort", keys=[(rng.random() < 0.3, _col(k)), (True, _col("id"))]),
+                 S("select", items=[(None, _col(c)) for c in keep] + [(x1, _col(k))]),
+                 S("filter", expr=("bin", "Or", ("bin", "Ge", _col(x1), ("lit", 0)), ("isnull", _col(x1), False))),
+                 S("select", items=[(None, _col(c)) for c in keep] + [(x2, ("bin", "Sub", _col(x1), _col(o)))]),
+                 S("derive", items=[(x3, _col(x2))]),
+                 S("select", items=[(None, _col(c)) for c in keep + [x2, x3]])]
+        pg = W.directed_program(steps, True, keep + [x2, x3])
+        c = make_case(pg, [P.gen_instance(rng, max_rows=6, min_rows=4), P.gen_instance(rng, max_rows=4, min_rows=2)])
+        rp = W.from_program(pg)
+        for lab, q in W.sites_identity(rp, rng, kinds=("filter-true", "derive-empty", "take-open")) + W.sites_let(rp, rng):
+            kd = W.kind_of(lab)
+            c.add(kd, lab, q.prql(), q.coq() if kd == "identity" else None)
+        cases.append(c)
+        # (2) F66: `P | append P | aggregate/group` with P ending in a distinct over two columns of which the rest uses one
+        g2 = W.RGen(rng, max_steps=3)
+        pg = g2.program(n_steps=rng.randint(1, 2), force=["distinct", "filter"])
+        if any(s.kind == "distinct" for s in pg.steps):
+            cases += two_ref_cases(pg, [P.gen_instance(rng, max_rows=6, min_rows=4), P.gen_instance(rng, max_rows=4, min_rows=2)], rng, force_rest=rng.choice([2, 3]))
+        # (3) F71: `P | append P` with P = sort by a computed key, then an aggregate
+        pg = g2.program(n_steps=1, force=["aggregate"])
+        if pg.steps and pg.steps[0].kind == "aggregate":
+            srt = S("sort", keys=[(True, ("bin", "Sub", ("lit", 0), _col(rng.choice(["c", "b"])))), (False, _col("id"))])
+            pg2 = P.Program([P.Step("sort", srt.prql(), srt.coq(), keys=list(srt.keys))] + list(pg.steps), pg.ordered, pg.final_cols, dict(pg.meta))
+            cases += two_ref_cases(pg2, [P.gen_instance(rng, max_rows=5, min_rows=2)], rng, force_rest=rng.choice([0, 1]))
     return cases
 
 
